@@ -854,6 +854,8 @@ def down_chain(d, path, k):
     """the child-level input channels (path, index) a macro input forwards to, through any nesting"""
     cur = d
     for s_ in path:
+        if cur is None or s_[0] != "body" or s_[1] >= len(cur["body"]):
+            return []                 # an interface node or a function child forwards nothing
         cur = cur["body"][s_[1]][1]
     out = []
     while cur is not None and k < len(cur["ps"]):
